@@ -215,3 +215,29 @@ def integrate_normalized(vc):
     else:
         got = out.value.at((i,))
     vc.ensure('C17/integrate/normalize/post/(x-mean(clipped))/std(clipped)-in-every-output-form', Implies(And(i >= 0, i < nlen), eq(got, want)))
+
+
+@contract('C17', 'spectrum_and_timeseries_wrappers', functions=['setigen.integrate:spectrum', 'setigen.integrate:timeseries'])
+def wrappers(vc):
+    """spectrum(fr, ...) / timeseries(fr, ...) are integrate(fr, axis=time / frequency, as_frame=True) with the caller's mode and normalisation
+    passed through unchanged."""
+    which = ('spectrum', 'timeseries')[vc.choose(2, 'wrapper')]
+    f, p = frame_obj(vc, True)
+    seen = {}
+
+    def integrate_contract(interp, clo, args, kwargs):
+        seen['kw'] = interp.bind_args(clo, args, kwargs)
+        return 'INTEGRATED'
+    vc.interp.call_specs['setigen.integrate:integrate'] = integrate_contract
+    M, Nz = I.SStr.fresh('mode') if hasattr(I.SStr, 'fresh') else 'sum', Bool('normalize')
+    out = vc.call('setigen.integrate:' + which, f, mode=M, normalize=Nz)
+    vc.cover('reachable')
+    vc.ensure(f'C17/{which}/exc/none', out.ok)
+    if not out.ok or 'kw' not in seen:
+        vc.ensure(f'C17/{which}/pre@callsite/delegates-to-integrate', False)
+        return
+    kw = seen['kw']
+    ax = kw.get('axis')
+    want_axis = (ax in ('t', 0)) if which == 'spectrum' else (ax in ('f', 1))
+    vc.ensure(f'C17/{which}/pre@callsite/integrate-called-with-the-callers-mode-and-normalisation',
+              And(kw.get('fr') is f, want_axis, kw.get('mode') is M, kw.get('normalize') is Nz, kw.get('as_frame') is True, out.value == 'INTEGRATED'))
